@@ -627,6 +627,9 @@ def mapfilterzip(ex, name, args, st, where):
         return
     f, xs = args
     items = ex.iter_items(xs, st)
+    if items is None and name == "map" and isinstance(xs, Sym) and isinstance(xs.ty, SeqTy):
+        yield from symbolic_map(ex, f, xs, st, where)
+        return
     if items is None:
         raise PyvcUnsupported(f"{name} over symbolic sequence at line {where}")
 
@@ -645,6 +648,73 @@ def mapfilterzip(ex, name, args, st, where):
                     keep = b if name == "filter" else not b
                     yield from go(i + 1, acc + [items[i]] if keep else acc, st3)
     yield from go(0, [], st)
+
+
+def symbolic_map(ex, f, xs, st, where):
+    """map(f, xs) over a symbolic sequence. f is run once on the arbitrary element xs[i]; it may fork (its paths are
+    merged into one value guarded by the path conditions it added) but must not raise or add quantified facts.
+    Boolean results give a QuantSeq (usable in any()/all()); other results a fresh sequence constrained element-wise."""
+    from . import values as _values
+    import re as _re
+    i = z3.Int(fresh_name("mi"))
+    n = z3.Length(xs.e)
+    st_i = st.assume(i >= 0, i < n)
+    base, qbase = len(st_i.pc), len(st_i.qpc)
+    n0 = next(_values._fresh)
+    raw = []
+    for v, st2 in ex.call_value(f, [Sym(xs.ty.elem, xs.e[i])], {}, st_i, where):
+        if isinstance(v, Raised):
+            raise PyvcUnsupported(f"map over a symbolic sequence with a raising function at line {where}")
+        if len(st2.reports) != len(st_i.reports):
+            raise PyvcUnsupported(f"map over a symbolic sequence: function files reports (line {where})")
+        raw.append((list(st2.pc[base:]) + list(st2.qpc[qbase:]), v))
+    n1 = next(_values._fresh)
+    # constants created while running f (results of contract applications, library models) depend on the element:
+    # they become functions of the index i before the path is put under the quantifier over i
+    sk = {}
+
+    def fresh_consts(e, seen):
+        if e.get_id() in seen:
+            return
+        seen.add(e.get_id())
+        if z3.is_quantifier(e):
+            fresh_consts(e.body(), seen)
+            return
+        if z3.is_app(e):
+            if e.num_args() == 0 and e.decl().kind() == z3.Z3_OP_UNINTERPRETED:
+                m_ = _re.search(r"!(\d+)$", e.decl().name())
+                if m_ and n0 < int(m_.group(1)) < n1 and e.get_id() not in sk:
+                    sk[e.get_id()] = (e, z3.Function(e.decl().name() + "_at", z3.IntSort(), e.sort())(i))
+            for ch in e.children():
+                fresh_consts(ch, seen)
+
+    def lift_i(e):
+        return z3.substitute(e, *[(c, fi) for c, fi in sk.values()]) if sk else e
+    outs = []
+    for extras, v in raw:
+        if not (isinstance(v, bool) or isinstance(v, Sym)):
+            raise PyvcUnsupported(f"map over a symbolic sequence: element value {type(v).__name__} (line {where})")
+        seen = set()
+        for e_ in extras + ([v.e] if isinstance(v, Sym) else []):
+            fresh_consts(e_, seen)
+    for extras, v in raw:
+        g = z3.And(*[lift_i(e_) for e_ in extras]) if extras else z3.BoolVal(True)
+        outs.append((g, Sym(v.ty, lift_i(v.e)) if isinstance(v, Sym) else v))
+    if not outs:
+        raise PyvcUnsupported("map over a symbolic sequence: no feasible path through the function")
+    if all(isinstance(v, bool) or ty_of(v) is BoolT for _, v in outs):
+        body = z3.Or(*[z3.And(g, z3_bool(v) if not isinstance(v, bool) else z3.BoolVal(v)) for g, v in outs])
+        # totality: for every index one of the paths through f is taken, with the facts assumed along it (callee
+        # postconditions about the per-index results) -- the same assumption symbolic execution makes for one call
+        total = z3.ForAll([i], z3.Implies(z3.And(i >= 0, i < n), z3.Or(*[g for g, _ in outs])))
+        yield QuantSeq(xs, i, body, None), st.assume(total)
+        return
+    if len(outs) != 1:
+        raise PyvcUnsupported(f"map over a symbolic sequence with a forking non-boolean function at line {where}")
+    v = outs[0][1]
+    vt = ty_of(v)
+    out = z3.Const(fresh_name("mapped"), z3.SeqSort(vt.sort))
+    yield Sym(SeqTy(vt), out), st.assume(z3.Length(out) == n, z3.ForAll([i], z3.Implies(z3.And(i >= 0, i < n), out[i] == coerce(v, vt))))
 
 
 def symbolic_filter(ex, pred, xs, negate, st, where):
